@@ -1389,6 +1389,12 @@ class Executor:
         ta, tb = a.ty, b.ty
         # sequence / string / list operators
         if isinstance(op, ast.Add):
+            # str? + str (a row being filled that may still be None): None + str is a TypeError, its absence an obligation
+            if (ta.kind == 'opt' and ta.args[0].kind == 'str' and tb.kind in ('str', 'opt')) \
+                    or (tb.kind == 'opt' and tb.args[0].kind == 'str' and ta.kind in ('str', 'opt')):
+                a = self.unwrap_num(st, a, cx, node)
+                b = self.unwrap_num(st, b, cx, node)
+                ta, tb = a.ty, b.ty
             if ta.kind == 'str' and tb.kind == 'str':
                 return k(st, SV(STR, z3.Concat(a.z, b.z)))
             if ta.kind == 'seq' and tb.kind == 'seq':
